@@ -2,6 +2,7 @@
 // and the fleet TUs (real ctpg code).
 #pragma once
 #include <cstdint>
+#include <iosfwd>
 #include <string>
 #include <utility>
 #include <vector>
@@ -25,6 +26,7 @@ struct ExecOp
     bool verbose = false, skip_ws = true, skip_nl = true;
     std::string input;          // final bytes (after all input faults)
     int op_index = 0;           // index inside the task (for simrt::begin_op)
+    std::ostream* shared_os = nullptr;   // STR_SIM: the task's long-lived stream object shared by its calls (C15 histories)
     bool hash_image = false;    // FNV of the parser object's bytes before/after the call (C15)
 };
 
